@@ -46,9 +46,9 @@ PATH.append(('src/nunavut/lang/__init__.py', 'LanguageContext.filter_id_for_targ
 PATH.append((NS, '_checked_namespace_file_stem'))
 
 # support files: where the support namespace is read and joined into paths.  design_notes/C11_support_namespace_fix.patch adds the
-# helper _checked_support_namespace (second pinned shape).  SUPPORT_FIX_LANDED: flip to True when the patch is in /repo -- the
-# pre-fix shape is then rejected and Properties/C11.v's C11_support_ns_validated_live becomes a real obligation.
-SUPPORT_FIX_LANDED = False
+# helper _checked_support_namespace; landed in /repo 5a15038: SUPPORT_FIX_LANDED = True, so only the post-fix shape
+# (pins/c11support_fixed.txt) is accepted and Properties/C11.v's C11_support_ns_validated_live is a real obligation.
+SUPPORT_FIX_LANDED = True
 SUPPORT = [(LG, 'Language.support_namespace'), (JJ, 'SupportGenerator.__init__'),
            (CM, 'IncludeGenerator.generate_include_filepart_list')]
 SUPPORT_VALIDATE = (LG, '_checked_support_namespace')
